@@ -153,6 +153,7 @@ package ice
 //@   site call closeAndLogError#0 assert closes-only-registered-connections: arg1.payload == conn
 //@   site call Close#1 assert closes-every-connection-still-awaiting-its-first-frame: recv == conn && has(m.pending, conn)
 //@   site call Close#2 assert closes-the-listener: recv == m.params.Listener
+//@   site call Wait#1 assert close-returns-only-after-the-goroutines-of-the-mux-have-ended: true
 //@   ensures closed-and-emptied: m.closed && len(m.connsIPv4) == 0 && len(m.connsIPv6) == 0
 
 // Every store to the mux's closed flag and tables is in the functions above.
@@ -256,6 +257,10 @@ package ice
 //@   modifies t.mu, t.aliveCleared, fam:H_time.Timer.*
 //@   ensures an-expired-connection-cannot-be-claimed: result == !old(t.expired)
 //@   ensures a-claim-is-recorded-for-the-timer-to-see: result ==> t.aliveCleared
+//@ func newTCPPacketConn
+//@   props C15 C13
+//@   opt nosafety
+//@   ensures exactly-the-provisional-connections-get-an-alive-timer: result != nil && (result.aliveTimer != nil) == (params.AliveDuration > 0) && !result.expired && !result.aliveCleared
 //@ func newTCPPacketConn$1
 //@   props C15 C13
 //@   opt nosafety
